@@ -54,6 +54,7 @@ pub struct Scn {
 
 const FILE_BYTES: &[u8] = b"FILE-CONTENT-secret-0123456789";
 const DIR_BYTES: &[u8] = b"<html>DIR-CONTENT-secret</html>";
+const INDEX_BYTES: &[u8] = b"<html>INDEX-CONTENT-secret</html>";
 const UP_BYTES: &[u8] = b"UPSTREAM-CONTENT-secret";
 
 fn pool(v6: bool) -> Vec<&'static str> {
@@ -64,10 +65,17 @@ fn pool(v6: bool) -> Vec<&'static str> {
     }
 }
 
+const ROUTED: [&str; 7] = ["file", "dir", "proxy", "redirect", "dir-sub-redirect", "dir-index", "dir-missing"];
+
 fn path_of(kind: &str) -> &'static str {
     match kind {
         "file" => "/f",
         "dir" => "/d/x.html",
+        // a sub-directory of the directory route: without the trailing slash (answered by a
+        // redirect to the slash form), with it (its index.html), and a file that does not exist
+        "dir-sub-redirect" => "/d/sub",
+        "dir-index" => "/d/sub/",
+        "dir-missing" => "/d/nope.html",
         "proxy" => "/p/q",
         "redirect" => "/r",
         _ => "/zzz",
@@ -88,7 +96,7 @@ impl Prop for C19 {
         }
     }
     fn rule(&self) -> &'static str {
-        "One case = the whole server started from a generated Config (blacklist mode block/forbidden x list empty / the client's address / others, IPv4 or IPv6 x routes of all four types: file, directory, proxy to a scripted upstream, redirect x cache on/off x 1..4 threads) and 1..3 clients connecting from chosen source addresses (loopback, private, documentation ranges; IPv6) sending 1..4 keep-alive requests each on routed and unrouted paths with X-Forwarded-For absent or listing listed/unlisted addresses (',' or ', ' separators, several entries); a history dimension: an unlisted client warms the cache for the path a listed client then asks. Distinct = distinct (mode, listedness of peer and of each forwarded entry, route kind, position in the connection, cache state, outcome); non-trivial = the blacklist is non-empty and at least one request involves a listed address."
+        "One case = the whole server started from a generated Config (blacklist mode block/forbidden x list empty / the client's address / others, IPv4 or IPv6 x routes of all four types: file, directory, proxy to a scripted upstream, redirect x cache on/off x 1..4 threads) and 1..3 clients connecting from chosen source addresses (loopback, private, documentation ranges; IPv6) sending 1..4 keep-alive requests each on routed paths (a file route; a directory route: a file in it, a sub-directory without and with the trailing slash, a missing file; a proxy route; a redirect route) and unrouted paths with X-Forwarded-For absent or listing listed/unlisted addresses (',' or ', ' separators, several entries); a history dimension: an unlisted client warms the cache for the path a listed client then asks. Distinct = distinct (mode, listedness of peer and of each forwarded entry, route kind, position in the connection, cache state, outcome); non-trivial = the blacklist is non-empty and at least one request involves a listed address."
     }
     fn assumptions(&self) -> Vec<String> {
         vec![
@@ -99,7 +107,7 @@ impl Prop for C19 {
         ]
     }
     fn expected_counters(&self) -> Vec<&'static str> {
-        vec!["c19.block_mode", "c19.forbidden_mode", "c19.listed_peer_requests", "c19.forged_xff_by_listed_peer", "c19.unlisted_peer_forwarding_listed", "c19.all_unlisted_requests", "c19.ipv6_runs", "c19.cache_on", "c19.kind.file", "c19.kind.dir", "c19.kind.proxy", "c19.kind.redirect", "c19.kind.unrouted", "c19.cache_warmed_then_listed"]
+        vec!["c19.block_mode", "c19.forbidden_mode", "c19.listed_peer_requests", "c19.forged_xff_by_listed_peer", "c19.unlisted_peer_forwarding_listed", "c19.all_unlisted_requests", "c19.ipv6_runs", "c19.cache_on", "c19.kind.file", "c19.kind.dir", "c19.kind.dir-sub-redirect", "c19.kind.dir-index", "c19.kind.dir-missing", "c19.kind.proxy", "c19.kind.redirect", "c19.kind.unrouted", "c19.cache_warmed_then_listed"]
     }
     fn real_vs_stub(&self) -> (Vec<&'static str>, Vec<&'static str>) {
         (vec!["humphrey_server::server::server::main (whole), verify_connection, file/directory/redirect/proxy handlers, blacklist_check, cache, Logger + monitor thread, humphrey::App, Address::from_headers, proxy_request"], vec!["TCP with arbitrary peer addresses, threads, clocks (humsim)", "upstream and clients are harness reference implementations", "std::fs real"])
@@ -129,7 +137,7 @@ impl Prop for C19 {
             let nreq = rng.range(1, if tier == Tier::Quick { 3 } else { 4 }) as usize;
             let reqs = (0..nreq)
                 .map(|_| {
-                    let kind = ["file", "dir", "proxy", "redirect", "unrouted", "file", "dir"][rng.usize_below(7)].to_string();
+                    let kind = ["file", "dir", "proxy", "redirect", "unrouted", "file", "dir", "dir-sub-redirect", "dir-index", "dir-missing"][rng.usize_below(10)].to_string();
                     let nx = match rng.below(4) {
                         0 | 1 => 0,
                         2 => 1,
@@ -166,6 +174,8 @@ impl Prop for C19 {
         let _ = std::fs::create_dir_all(format!("{}/d", dir));
         let _ = std::fs::write(format!("{}/f.txt", dir), FILE_BYTES);
         let _ = std::fs::write(format!("{}/d/x.html", dir), DIR_BYTES);
+        let _ = std::fs::create_dir_all(format!("{}/d/sub", dir));
+        let _ = std::fs::write(format!("{}/d/sub/index.html", dir), INDEX_BYTES);
         let server_ip = if scn.v6 { "[::]" } else { "0.0.0.0" };
         let connect_to: SocketAddr = if scn.v6 { "[::1]:8080".parse().unwrap() } else { "127.0.0.1:8080".parse().unwrap() };
         let up_addr: SocketAddr = if scn.v6 { "[fd00::99]:9000".parse().unwrap() } else { "10.4.0.9:9000".parse().unwrap() };
@@ -296,7 +306,7 @@ impl Prop for C19 {
                 continue;
             }
             for (i, r) in c.reqs.iter().enumerate() {
-                rr.count(&format!("c19.kind.{}", if ["file", "dir", "proxy", "redirect"].contains(&r.kind.as_str()) { r.kind.as_str() } else { "unrouted" }), 1);
+                rr.count(&format!("c19.kind.{}", if ROUTED.contains(&r.kind.as_str()) { r.kind.as_str() } else { "unrouted" }), 1);
                 let chain: Vec<IpAddr> = r.xff.iter().map(|a| fix(a)).collect();
                 let origin_listed = chain.last().map(listed).unwrap_or(false);
                 let middle_listed = chain.len() > 1 && chain[..chain.len() - 1].iter().any(listed);
@@ -320,7 +330,7 @@ impl Prop for C19 {
                         rr.count("c19.cache_warmed_then_listed", 1);
                     }
                 }
-                let routed = ["file", "dir", "proxy", "redirect"].contains(&r.kind.as_str());
+                let routed = ROUTED.contains(&r.kind.as_str());
                 let g = match got.get(i) {
                     Some(Some(g)) => g.clone(),
                     _ => {
@@ -332,12 +342,19 @@ impl Prop for C19 {
                 let content: &[u8] = match r.kind.as_str() {
                     "file" => FILE_BYTES,
                     "dir" => DIR_BYTES,
+                    "dir-index" => INDEX_BYTES,
                     "proxy" => UP_BYTES,
                     _ => b"",
                 };
-                let leaked = (!content.is_empty() && g.1.windows(content.len()).any(|w| w == content)) || (r.kind == "redirect" && g.0 == 301);
+                // (a 301 from the directory route tells the client that the directory exists)
+                let leaked = (!content.is_empty() && g.1.windows(content.len()).any(|w| w == content)) || ((r.kind == "redirect" || r.kind == "dir-sub-redirect") && g.0 == 301);
                 let who = if peer_listed { if chain.is_empty() { "listed-peer" } else if origin_listed { "listed-peer-forwarding-listed" } else { "listed-peer-forging-unlisted-xff" } } else { "unlisted-peer-forwarding-listed" };
-                if must_forbid && routed {
+                if must_forbid && r.kind == "dir-missing" {
+                    // nothing to serve either way: 403 or 404, never content
+                    if g.0 != 403 && g.0 != 404 {
+                        rr.violate(if peer_listed { "C19/R2" } else { "C19/R3" }, format!("not-403:{}:{}:{}", who, scn.mode, r.kind), format!("status {} instead of 403/404", g.0));
+                    }
+                } else if must_forbid && routed {
                     if leaked {
                         rr.violate(if peer_listed { "C19/R2" } else { "C19/R3" }, format!("content-served-to-listed-address:{}:{}:{}", who, scn.mode, r.kind), format!("client {} from {} (listed: {}) with X-Forwarded-For {:?} requested {} and received status {} with the route's content (blacklist {:?}, mode {})", cid, src_ip, peer_listed, r.xff, path_of(&r.kind), g.0, scn.list, scn.mode));
                     } else if g.0 != 403 {
@@ -346,6 +363,8 @@ impl Prop for C19 {
                 } else if !may_forbid && routed {
                     let ok = match r.kind.as_str() {
                         "redirect" => g.0 == 301 && g.2 == "/elsewhere",
+                        "dir-sub-redirect" => g.0 == 301 && g.2 == "/d/sub/",
+                        "dir-missing" => g.0 == 404,
                         _ => g.0 == 200 && g.1 == content,
                     };
                     if !ok {
